@@ -16,13 +16,13 @@ def make(scr, tree, sub="src"):
     return sandbox.materialize(tree, os.path.join(scr, sub))
 
 
-def create(creator, route, root, out, P=None, progress=0, extra_kw=None, extra_cli=()):
+def create(creator, route, root, out, P=None, progress=0, extra_kw=None, extra_cli=(), flags=()):
     """Create a metafile through the given creator/route; returns Meta of the written file."""
     if route == "cli":
         extra = ["--prog", str(progress)] + list(extra_cli)
         if P is not None:
             extra += ["--piece-length", str(P)]
-        target.create_cli(CLI_VERSION[creator], root, out, extra)
+        target.create_cli(CLI_VERSION[creator], root, out, extra, flags)
     else:
         kw = dict(extra_kw or {})
         kw["progress"] = progress
